@@ -18,18 +18,24 @@ COMMON_NOTE = ("Trusted: Coq kernel + vm_compute; the hand-written model (the th
 
 CLAIMED = {
     "C01": {
-        "text": "PARTIAL. Proved (for all template data records, flag combinations, hand-written declaration lists and command "
-                "lines): the generated file's header has the required form, and at the level of declared/used names the files "
-                "shoot generates are well-formed with the package (no name declared twice incl. hand-written ones, no method/field "
-                "clash, every used name declared) under explicit decidable guards, compositionally for several types in one run; "
-                "the three open defect classes (enum -bit's undefined table, -opt -short collisions, unexported RestClient "
-                "interfaces) are refuted as general theorems. NOT proved: Go's type checker proper and gofmt, which are observed: "
-                "every run of the correspondence stream is compiled with its package (go build), gofmt -l'ed, and its declared "
-                "names compared inside Coq with the model's skeleton; the property itself (exit 0 => header, package clause, "
-                "gofmt-clean, compiles) is evaluated on every observation.",
-        "design_ref": "DESIGN.md section 8, C01",
-        "note": COMMON_NOTE + "Partial: the theorem is name-level; compilability beyond names is sampled by go build of every generated package.",
-        "technique": "Rocq proof of name-level well-formedness of the template skeletons + differential run (shoot, declsig, gofmt, go build) compared inside Coq",
+        "text": "PARTIAL. Proved about the template skeletons of Model/GoWf.v (which package-level names and methods a generated "
+                "file declares and uses, as a function of the template data; read off the four templates), for all data "
+                "records, flag combinations, hand-written declaration lists and command lines: the header has the required form; "
+                "a file's own declarations are pairwise distinct for enum/rest/map always and for new whenever the names derived "
+                "from the fields are pairwise distinct and differ from the fixed method names (a decidable condition); such a file "
+                "is well-formed with every package that declares the type, nothing the file declares and no field named like a "
+                "generated method; files with disjoint declarations compose. Three open defect classes are refuted as general "
+                "theorems (enum -bit's undefined table, -opt -short collisions, unexported RestClient interfaces). NOT proved: "
+                "that the hypotheses follow from the input package (no theorem composes a generator model with a skeleton; the "
+                "-getset/-json part of the new skeleton is not yet compared), disjointness of the declarations of two types, Go's "
+                "type checker beyond names, gofmt. Those rest on the correspondence: every run of the four streams x three "
+                "selection modes is executed by the built binary, each written file is parsed (declared names vs skeleton), "
+                "gofmt -l'ed and compiled with its package, and the property itself (exit 0, no panic/timeout, header, package "
+                "clause, gofmt-clean, compiles) is evaluated inside Coq on EVERY case; a failure inside the generator models' "
+                "guards is a concrete violation, outside them it is excused only while an open finding owning the class reproduces.",
+        "design_ref": "DESIGN.md section 8, C01; docs/C01.md",
+        "note": COMMON_NOTE + "Partial: the theorems are name-level and about template-data records; compilability is sampled by go build of every generated package. -gorm is not run (its modules are not available offline). Guards of the streams are those of the generator models (Enum, Ctor c02/c13, RestSpec.wf_mspec, MapperSpec.pair_guard).",
+        "technique": "Rocq proof of name-level well-formedness of the template skeletons + differential run (shoot, declsig, gofmt, go build) with the property evaluated inside Coq on every case",
         "coq_targets": ["Properties/C01.vo", "Corr/GoWfCorr.vo"],
     },
     "C20": {
@@ -41,19 +47,22 @@ CLAIMED = {
         "design_ref": "DESIGN.md section 8, C20",
         "note": COMMON_NOTE + "Sleeping is observed through inter-call gaps (lower bound), not modelled in real time.",
         "technique": "Rocq proof by induction over the retry loop + differential run of RetryMiddleware vs model",
-        "coq_targets": ["Properties/C20.vo", "Corr/RetryCorr.vo"],
+        "coq_targets": ["Properties/C20.vo", "Corr/RetryCorr.vo", "Proofs/RetryCorrProofs.vo"],
     },
     "C19": {
         "text": "Theorems over all option sequences (any length, any arguments), all Register/NewRest histories and all "
                 "middleware lists: RestConf holds exactly the last argument per option (zero if none) and every Use "
                 "argument in order; Register panics iff the type was registered before, NewRest panics iff it was not and "
                 "otherwise applies the first-registered constructor to exactly that conf; the chain is first-added "
-                "outermost with logging outside all; client timeout = configured timeout on the repaired branch, with the "
-                "int64-wrap defect of the template modelled and refuted by witness (open finding K_rest_timeout, golden-locked). "
+                "outermost with logging outside all. The property's last sentence (client HTTP timeout = configured timeout) is "
+                "FALSE of /repo: open finding K_rest_timeout (golden-locked template line multiplies a time.Duration by "
+                "time.Second in int64); proved instead: the generated client's timeout equals the configured one only for 0 "
+                "(wrap64 (t * 10^9) = t <-> t = 0), with a concrete witness; the comparison uses the defect branch while the "
+                "finding reproduces. "
                 "Tied to restclient.go/constructor.go/middleware and the generated client by a Go driver executing option "
                 "sequences and registry histories, compared inside Coq.",
         "design_ref": "DESIGN.md section 8, C19",
-        "note": COMMON_NOTE + "reflect.Type identity is modelled as an abstract type id; the logging middleware is observed by its position only.",
+        "note": COMMON_NOTE + "reflect.Type identity is modelled as an abstract type id (exercised with two same-named types of different import paths); the logging middleware is observed through the position of its log line (wrappers nest, so the exit position determines the entry position); panic messages are classified by substring, their type names are not compared.",
         "technique": "Rocq proof by induction over option lists, registry histories and middleware lists + differential run of the runtime/generated client vs model",
         "coq_targets": ["Properties/C19.vo", "Corr/RestRuntimeCorr.vo"],
     },
